@@ -1,7 +1,6 @@
 package sim
 
 import (
-	"encoding/binary"
 	"errors"
 	"fmt"
 	"io"
@@ -130,9 +129,7 @@ func scTConc(r *Run) {
 		// data queued before anything else happens: it must come out before end-of-stream
 		aux.preloaded = r.Intn("cfg", 6)
 		for i := 1; i <= aux.preloaded; i++ {
-			b := make([]byte, 8)
-			binary.BigEndian.PutUint64(b, uint64(i))
-			peerWrite(b)
+			peerWrite(tconcMsg(i))
 		}
 		time.Sleep(100 * time.Millisecond)
 	}
@@ -155,6 +152,7 @@ func scTConc(r *Run) {
 			switch x := r.Intn("op", 16); {
 			case x < 3:
 				o.op = tRead
+				o.arg = []int64{0, 0, 3, 5, 1}[r.Intn("op", 5)] // 0 = large buffer; otherwise shorter than a message
 			case x < 6:
 				o.op = tReadMsg
 			case x < 8:
@@ -209,15 +207,17 @@ func scTConc(r *Run) {
 					var k int
 					var err error
 					if o.op == tRead {
-						k, err = conn.Read(buf)
+						b := buf
+						if o.arg > 0 {
+							b = buf[:o.arg] // a short buffer: the rest of the message stays for the next read
+						}
+						k, err = conn.Read(b)
 					} else {
 						k, err = conn.ReadMsg(buf)
 					}
 					v := int64(0)
-					if err == nil && k == 8 {
-						v = int64(binary.BigEndian.Uint64(buf[:8]))
-					} else if err == nil {
-						v = -int64(k) - 1
+					if err == nil {
+						v = tconcDecode(buf[:k])
 					}
 					h.Return(id, v, classifyT(err))
 				case tWrite:
@@ -288,7 +288,13 @@ loop:
 		// after close completed: writes fail, reads drain what was queued and then report end-of-stream
 		if !released {
 			id := h.Invoke(99, tClose, 0)
-			err := conn.Close()
+			var err error
+			if !WithTimeout(r, 30*time.Second, func() { err = conn.Close() }) {
+				r.NoLeakCheck = true
+				r.Violate("C17/call-never-returns/Close", "mode %s hidden=%v: Close, called after every other operation had returned, is still blocked 30 simulated seconds later; goroutines:\n  %s",
+					[]string{"client/live", "client/silent", "handle", "server"}[mode], hidden, BlockedSummary())
+				return
+			}
 			code := ErrNone
 			if err != nil {
 				code = ErrOther
@@ -308,10 +314,8 @@ loop:
 				break
 			}
 			v := int64(0)
-			if err == nil && k == 8 {
-				v = int64(binary.BigEndian.Uint64(buf[:8]))
-			} else if err == nil {
-				v = -int64(k) - 1
+			if err == nil {
+				v = tconcDecode(buf[:k])
 			}
 			h.Return(id, v, classifyT(err))
 			if err != nil {
@@ -319,11 +323,19 @@ loop:
 			}
 		}
 	}
+	// (teardown of the rest of the world; bounded, a Close that hangs here was judged above or is not the
+	// connection under test)
 	if srv.Srv != nil {
-		srv.Srv.Close()
+		if !WithTimeout(r, 60*time.Second, func() { srv.Srv.Close() }) {
+			r.NoLeakCheck = true
+			r.Probe("teardown-server-close-did-not-return")
+		}
 	}
 	if conn != tconn(tc.C) {
-		tc.C.Close()
+		if !WithTimeout(r, 60*time.Second, func() { tc.C.Close() }) {
+			r.NoLeakCheck = true
+			r.Probe("teardown-client-close-did-not-return")
+		}
 	}
 	time.Sleep(5 * time.Second)
 	for _, e := range h.Events() {
@@ -469,8 +481,13 @@ loop:
 	if !released {
 		WithTimeout(r, 30*time.Second, func() { srv.Close() })
 	}
-	for _, c := range clients {
-		c.C.Close()
+	for i, c := range clients {
+		c := c
+		if !WithTimeout(r, 60*time.Second, func() { c.C.Close() }) {
+			r.NoLeakCheck = true
+			r.Violate("C17/call-never-returns/Close", "server lifecycle: Close of client %d (whose Handshake ran while the server was being closed) is still blocked 60 simulated seconds later; goroutines:\n  %s", i, BlockedSummary())
+			break
+		}
 	}
 	time.Sleep(25 * time.Second)
 	for _, e := range h.Events() {
@@ -482,8 +499,33 @@ loop:
 // messages that were queued before the program started, plus close.
 type connState struct {
 	next   int64 // next preloaded message to come out
+	off    int64 // bytes of it that earlier short reads have taken already
 	last   int64 // number of preloaded messages
 	closed bool
+}
+
+// tconcMsg is preloaded message i: 8 bytes, each naming its message and its offset in it, so that every
+// byte of the receive stream is unique.
+func tconcMsg(i int) []byte {
+	b := make([]byte, 8)
+	for j := range b {
+		b[j] = byte(i<<4 | j)
+	}
+	return b
+}
+
+// tconcDecode turns what a read returned into (first byte)<<8 | count, or a negative value if the bytes
+// are not a contiguous piece of one preloaded message.
+func tconcDecode(b []byte) int64 {
+	if len(b) == 0 || len(b) > 8 || int(b[0]&0xf)+len(b) > 8 {
+		return -int64(len(b)) - 1
+	}
+	for j := range b {
+		if b[j] != b[0]+byte(j) {
+			return -1000 - int64(j)
+		}
+	}
+	return int64(b[0])<<8 | int64(len(b))
 }
 
 func tconcAfter(r *Run) {
@@ -534,13 +576,21 @@ func tconcAfter(r *Run) {
 			case tRead, tReadMsg:
 				switch e.Err {
 				case ErrNone:
-					if e.Out <= 0 { // not one of the preloaded messages (none other is ever sent)
+					if e.Out <= 0 || st.next > st.last { // not a piece of a preloaded message (nothing else is ever sent)
 						return false, st
 					}
-					if st.next > st.last || e.Out != st.next {
+					// the next bytes of the stream: the rest of the current message, as far as the buffer goes
+					k := 8 - st.off
+					if e.Op == tRead && e.Arg > 0 && e.Arg < k {
+						k = e.Arg
+					}
+					if e.Out != (st.next<<4|st.off)<<8|k {
 						return false, st
 					}
-					st.next++
+					st.off += k
+					if st.off == 8 {
+						st.next, st.off = st.next+1, 0
+					}
 					return true, st
 				case ErrEOF:
 					return st.closed && st.next > st.last, st
@@ -577,7 +627,7 @@ func tconcAfter(r *Run) {
 		for _, e := range evs {
 			lines = append(lines, fmt.Sprintf("[%d,%d] g%d %s(%d) -> out=%d err=%s", e.Call, e.Ret, e.G, tOpNames[e.Op], e.Arg, e.Out, []string{"nil", "EOF", "timeout", "cancelled", "other", "bufoverflow", "closedconn"}[e.Err]))
 		}
-		r.Violate("C17/connection-history-not-linearizable", "no linearization satisfies the connection model (%d messages queued before the program; each returned at most once, in order, before end-of-stream; end-of-stream and failing writes only after Close):\n  %s", aux.preloaded, strings.Join(lines, "\n  "))
+		r.Violate("C17/connection-history-not-linearizable", "no linearization satisfies the connection model (%d messages queued before the program; every byte returned at most once, in order, a read returning the rest of the current message as far as its buffer goes, before end-of-stream; end-of-stream and failing writes only after Close):\n  %s", aux.preloaded, strings.Join(lines, "\n  "))
 	case porcupine.Unknown:
 		r.Probe("porcupine-inconclusive")
 	}
